@@ -483,6 +483,16 @@ def corpus_layout(package="layout", byte_order=None):
                                          Group("g3", nid(), groups=[Group("gg", nid(), data=[Data("d", nid(), "varDataEncoding")])])]),
         Message("lastOffset", 8, fields=[Field("a", nid(), "uint8"), Field("b", nid(), "uint16", offset=10)],
                 groups=[Group("g", nid(), fields=[Field("x", nid(), "uint8", offset=3)], block_length=8)]),
+        # levels whose LAST schema field is a constant while the block is padded beyond the last encoded field:
+        # "last field" (whose cursor accessor jumps to the block end) must mean the last *encoded* one
+        Message("trailConst", 9, block_length=14,
+                fields=[Field("a", nid(), "uint32"), Field("b", nid(), "uint16"), Field("k", nid(), "K")],
+                groups=[Group("flat", nid(), block_length=16,
+                              fields=[Field("price", nid(), "uint64"), Field("qty", nid(), "uint16"), Field("k", nid(), "K")]),
+                        Group("nest", nid(), block_length=7,
+                              fields=[Field("k0", nid(), "K"), Field("v", nid(), "uint16"), Field("k1", nid(), "K"), Field("k2", nid(), "K")],
+                              groups=[Group("in", nid(), block_length=4, fields=[Field("w", nid(), "uint8"), Field("k", nid(), "K")])])],
+                data=[Data("tail", nid(), "varDataEncoding")]),
     ]
     return Schema(package, id=2, version=1, byte_order=byte_order, types=types, messages=msgs,
                   description="covering corpus: offsets and block lengths")
